@@ -668,6 +668,17 @@ class ProgGen:
                     items.append(node)
                 else:
                     items.insert(0, node)
+        if self.isa.get("late_consts") is not None and rng.random() < 0.12:
+            # a user constant that happens to be called `pc`: a bare `pc` operand still means the current address
+            untyped = [r for r in self.isa["rules"] if len(r["pat"]) == 2 and r["pat"][1][0] == "param" and r["pat"][1][2] is None]
+            if untyped:
+                items.insert(rng.choice([0, len(items)]), ("const", "pc", 0, num(rng.randint(0, 9))))
+                for _ in range(rng.randint(1, 3)):
+                    r = rng.choice(untyped)
+                    at = rng.randint(self.bank_prefix_len(), len(items))
+                    if at < len(items) and items[at][0] in ("bankdef",):
+                        continue
+                    items.insert(at, ("instr", [("t", r["pat"][0][1], "lit"), ("t", "pc", "sym")]))
         extra_files = {}
         for zk in self.isa.get("late_consts", []):
             v = rng.randint(0, 127)        # incbin reads the file as a *signed* big-endian number: keep the top bit clear
